@@ -3,6 +3,7 @@ package scen
 import (
 	"fmt"
 	"io"
+	"math"
 	"strings"
 	"time"
 
@@ -54,7 +55,7 @@ func (r *refBar) apply(o c09Op) {
 	}
 	switch o.k {
 	case "IncrInt64", "IncrBy", "Increment", "EwmaIncrInt64", "EwmaIncrBy", "EwmaIncrement":
-		r.current += o.n
+		r.current = satAdd(r.current, o.n) // increments accumulate; what int64 cannot hold stays at its end
 		r.reach()
 	case "SetCurrent", "EwmaSetCurrent":
 		if o.n < 0 {
@@ -122,9 +123,20 @@ func applyReal(b *mpb.Bar, o c09Op) {
 	}
 }
 
+// satAdd is a + b, saturating at the ends of int64.
+func satAdd(a, b int64) int64 {
+	if b > 0 && a > math.MaxInt64-b {
+		return math.MaxInt64
+	}
+	if b < 0 && a < math.MinInt64-b {
+		return math.MinInt64
+	}
+	return a + b
+}
+
 var c09Alphabet = func() []c09Op {
 	var a []c09Op
-	for _, k := range []int64{-1, 0, 1, 2, 5} {
+	for _, k := range []int64{-1, 0, 1, 2, 5, math.MaxInt64, math.MinInt64} {
 		a = append(a, c09Op{k: "IncrInt64", n: k})
 	}
 	for _, k := range []int64{-1, 0, 1, 2, 5} {
@@ -394,7 +406,7 @@ func init() {
 	register(&Family{
 		Property: "C09",
 		Rule: "explicit-state breadth-first search from initial totals {-1,0,1,2,5}: states are reference-model states (total, current, refill, trigger, aborted, completed; values capped at 8), each transition re-creates a real bar on a fresh container by replaying the shortest path and applies one of 25 letters " +
-			"{IncrInt64 k, SetCurrent k (k in -1,0,1,2,5), SetTotal(t,complete) (t in -1,0,2,5), EnableTriggerComplete, SetRefill r (r in -1,0,1,3), Abort(false/true)} to depth 3 (thorough 14, or until no new state appears); terminal states are not expanded. " +
+			"{IncrInt64 k (k in -1,0,1,2,5, MaxInt64, MinInt64), SetCurrent k (k in -1,0,1,2,5), SetTotal(t,complete) (t in -1,0,2,5), EnableTriggerComplete, SetRefill r (r in -1,0,1,3), Abort(false/true)} to depth 3 (thorough 14, or until no new state appears); terminal states are not expanded. " +
 			"After every transition Current/Completed/Aborted and the Statistics handed to a probe filler in one manually refreshed frame are compared with the reference written from the documentation. Alias pass (IncrBy, Increment, Ewma*) with and without moving-average decorators; boundary pass with 2^31, 2^62, 2^63-1 restricted to non-overflowing sums. " +
 			"states/transitions are those of the search; every case is also executed on the unmodified package (digest comparison).",
 		Items: func(tier string) []Item { return seqItems("C09", tier) },
